@@ -1035,7 +1035,11 @@ def rule_08_16(rep, fx):
                         kids.extend(z for z in y if isinstance(z, tuple))
             return any(unguarded(k, inside) for k in kids)
         if unguarded(keep) and not (guard and P.every_path_passes(None, (bb, si), via_edges=guard, from_entry=True)):
-            ok = False
+            # the if-form: every place where the limit is wrapped into the candidate keep count lies behind the non-negativity edge
+            wraps = [(wb, wi) for wb, wi, wst in b.statements() if wst['s'] == 'assign' and wst['rv'].get('r') == 'agg' and wst['rv'].get('variant') == 'Some' and
+                     any(term_has(og.of_operand(o, wb, wi), lambda x: x[0] == 'field' and x[1] == 'max_samples_per_instance') for o in wst['rv'].get('ops', []))]
+            if not (wraps and guard and all(P.every_path_passes(None, w, via_edges=guard, from_entry=True) for w in wraps)):
+                ok = False
     rep.check(ok, 'R08.16', 'add_sample/unlimited-is-no-bound', 'max_samples_per_instance bounds the instance only when it is not negative',
               'DataSampleCache::add_sample uses max_samples_per_instance as the number of samples to keep without testing that it is not LENGTH_UNLIMITED (-1): with History KeepAll '
               'and the default (unlimited) resource limits len + 1 samples are evicted on every arrival, the DataReader never returns anything (keep count: %s)' % shown, b.where())
